@@ -29,6 +29,7 @@ import (
 	"time"
 
 	"github.com/daeuniverse/dae/common/consts"
+	"github.com/daeuniverse/dae/config"
 	"github.com/daeuniverse/dae/component/dns"
 	dnsmessage "github.com/miekg/dns"
 	"github.com/sirupsen/logrus"
@@ -50,27 +51,51 @@ func c08B(b bool) string {
 	return "0"
 }
 
+type c08Fixed struct {
+	name string
+	ttl  int
+}
+
 type c08Cfg struct {
 	opt   bool
 	stale int
 	max   int
-	fixed map[string]int
+	fixed []c08Fixed // the fixed_domain_ttl lines, in configuration order
 }
 
 func (c c08Cfg) fixedStr() string {
 	if len(c.fixed) == 0 {
 		return "-"
 	}
-	ks := make([]string, 0, len(c.fixed))
-	for k := range c.fixed {
-		ks = append(ks, k)
-	}
-	sort.Strings(ks)
-	parts := make([]string, len(ks))
-	for i, k := range ks {
-		parts[i] = fmt.Sprintf("%s:%d", c08Hex(k), c.fixed[k])
+	parts := make([]string, len(c.fixed))
+	for i, f := range c.fixed {
+		parts[i] = fmt.Sprintf("%s:%d", c08Hex(f.name), f.ttl)
 	}
 	return strings.Join(parts, ",")
+}
+
+// fixedMap goes through the production parser of the fixed_domain_ttl section.
+func (c c08Cfg) fixedMap() map[string]int {
+	ks := make([]config.KeyableString, len(c.fixed))
+	for i, f := range c.fixed {
+		ks[i] = config.KeyableString(fmt.Sprintf("%s: %d", f.name, f.ttl))
+	}
+	m, err := ParseFixedDomainTtl(ks)
+	if err != nil {
+		panic(err)
+	}
+	return m
+}
+
+// fixedFor is the generator's own idea of the table (used only to aim the clock).
+func (c c08Cfg) fixedFor(host string) (int, bool) {
+	v, ok := 0, false
+	for _, f := range c.fixed {
+		if strings.EqualFold(f.name, strings.TrimSuffix(host, ".")) {
+			v, ok = f.ttl, true
+		}
+	}
+	return v, ok
 }
 
 func (c c08Cfg) opStr() string {
@@ -90,7 +115,7 @@ func c08Option(cfg c08Cfg, log *logrus.Logger) *DnsControllerOption {
 				OriginalDeadline: originalDeadline,
 			}, nil
 		},
-		FixedDomainTtl:     cfg.fixed,
+		FixedDomainTtl:     cfg.fixedMap(),
 		OptimisticCache:    cfg.opt,
 		OptimisticCacheTtl: cfg.stale,
 		MaxCacheSize:       cfg.max,
@@ -497,11 +522,11 @@ func c08RandCfg(r *VRand, stats *VStats) c08Cfg {
 	switch r.Intn(4) {
 	case 0:
 	case 1:
-		cfg.fixed = map[string]int{"a.test": 10}
+		cfg.fixed = []c08Fixed{{"a.test", 10}}
 	case 2:
-		cfg.fixed = map[string]int{"a.test": 0, "ddns.example.org": 3600}
+		cfg.fixed = []c08Fixed{{"a.test", 0}, {"ddns.example.org", 3600}}
 	case 3:
-		cfg.fixed = map[string]int{"b.test": 1, "DDNS.example.org": 5, "t": 30}
+		cfg.fixed = []c08Fixed{{"b.test", 1}, {"DDNS.example.org", 5}, {"t", 30}, {"B.Test", 2}}
 	}
 	stats.Inc(fmt.Sprintf("cfg.opt=%s,stale%s,max%s,fixed%s", c08B(cfg.opt), c08Cls(cfg.stale), c08Cls(cfg.max), c08Cls(len(cfg.fixed))))
 	return cfg
@@ -707,9 +732,12 @@ func c08History(t *testing.T, r *VRand, st *VStream, stats *VStats, log *logrus.
 					}
 				}
 				eff := ttl
-				if f, ok := cfg.fixed[strings.TrimSuffix(host, ".")]; ok {
+				if f, ok := cfg.fixedFor(host); ok {
 					eff = int64(f)
 					stats.Inc("insert.fixed_ttl_applies")
+					if host != strings.ToLower(host) {
+						stats.Inc("insert.fixed_ttl_applies_mixed_case_question")
+					}
 				}
 				p := eff
 				if p < 0 {
@@ -766,7 +794,7 @@ func c08History(t *testing.T, r *VRand, st *VStream, stats *VStats, log *logrus.
 func c08Directed(t *testing.T, st *VStream, stats *VStats, log *logrus.Logger) {
 	for _, cfg := range []c08Cfg{
 		{opt: true, stale: 60}, {opt: true, stale: 0, max: 3}, {opt: false, stale: 60}, {opt: true, stale: 0},
-		{opt: false, stale: 0, max: 2}, {opt: true, stale: 2, max: 2, fixed: map[string]int{"a.test": 3}},
+		{opt: false, stale: 0, max: 2}, {opt: true, stale: 2, max: 2, fixed: []c08Fixed{{"a.test", 3}}},
 	} {
 		for _, ttl := range []int{1, 20, 0} {
 			synctest.Test(t, func(t *testing.T) {
@@ -777,7 +805,7 @@ func c08Directed(t *testing.T, st *VStream, stats *VStats, log *logrus.Logger) {
 				key := w.keyOp("A.Test.", 1, c08Routes()[5])
 				w.insn(t0, key, "A.Test.", 1, uint32(ttl), 7, 2, 0, 0)
 				eff := int64(ttl)
-				if f, ok := cfg.fixed["A.Test"]; ok {
+				if f, ok := cfg.fixedFor("A.Test"); ok {
 					eff = int64(f)
 				}
 				d := t0 + eff*c08Sec
@@ -829,7 +857,7 @@ func c08Findings(t *testing.T, st *VStream, stats *VStats, log *logrus.Logger) {
 	synctest.Test(t, func(t *testing.T) {
 		w := &c08World{log: log, st: st, stats: stats}
 		st.Emit("note fixed-ttl-case begin", "note")
-		w.cfg(c08Cfg{opt: false, stale: 60, fixed: map[string]int{"ddns.example.org": 10}})
+		w.cfg(c08Cfg{opt: false, stale: 60, fixed: []c08Fixed{{"ddns.example.org", 10}}})
 		defer func() { _ = w.c.Close() }()
 		t0 := time.Now().UnixNano()
 		for i, qn := range []string{"ddns.example.org.", "DDNS.Example.org."} {
